@@ -128,9 +128,37 @@ def run_store(lib, seqs):
     return out
 
 
+def dump_systems(reqs, repo, G):
+    """generator aid: describe a window of residues of a tests/data structure (names, elements, bonds, snapped
+    coordinates).  Only mdtraj's file readers are involved; nothing here is compared."""
+    out, cache = [], {}
+    for rq in reqs:
+        path = os.path.join(repo, "tests", "data", rq["file"])
+        if path not in cache:
+            cache[path] = md.load(path)
+        t = cache[path]
+        t = t[rq.get("frame", 0) % t.n_frames]
+        lo, hi = rq["residues"]
+        idx = [a.index for a in t.top.atoms if lo <= a.residue.index < hi]
+        if not idx:
+            out.append(None)
+            continue
+        t = t.atom_slice(idx)
+        residues = [{"name": r.name, "chain": r.chain.index,
+                     "atoms": [[a.name, a.element.symbol if a.element is not None else "X"] for a in r.atoms]}
+                    for r in t.top.residues]
+        bonds = [[a.index, b.index] for a, b in t.top.bonds]
+        xyz = np.rint(np.asarray(t.xyz[0], dtype=np.float64) * G).astype(int).tolist()
+        out.append({"residues": residues, "bonds": bonds, "xyz": xyz})
+    return out
+
+
 def main():
     p = json.load(sys.stdin)
     G = p.get("G", 1024)
+    if p.get("dump"):
+        print(json.dumps({"dump": dump_systems(p["dump"], p["repo"], G)}))
+        return
     out = {"systems": [], "store": []}
     for sysd in p.get("systems", []):
         traj, _big = build_traj(sysd, G)
